@@ -190,6 +190,33 @@ def package_level(report, sc, ybin, lean, seed, n):
                     report.violation(f"respelling-changes-generated-code:{tgt}", dict(replay, first_difference=d),
                                      "a pure syntax alternative changed the generated code")
                     break
+        # (1b) block-style YAML with documentation on some nodes, with and without comment blocks that are not documentation
+        #      (separated from the node by an empty line: section markers, notes, licence headers) and end-of-line comments
+        if i <= n or i % 3 == 0:
+            trees = []
+            for vname, detached in (("documented", None), ("documented+detached-blocks", seed * 17 + i)):
+                pb = copy.deepcopy(pkg)
+                pb.block, pb.comment_lines, pb.detached_comments = True, ("doc", 0.5, seed * 7 + i), detached
+                for imp in pb.imports:
+                    imp.block, imp.comment_lines, imp.detached_comments = True, ("doc", 0.5, seed * 7 + i + 1), (None if detached is None else detached + 1)
+                v = codeclab.Lab(sc, ybin, f"{i}{vname}", g, pkg=pb, ndjson=True, want_cpp=True, want_matlab=True)
+                v.spell_rng = random.Random(seed + 1)
+                _generate(v)
+                trees.append(v)
+            report.case(distinct_key=(i, "detached-comments"))
+            report.count("respelling.detached-comment-blocks")
+            a, b = trees
+            replay = {"seed": seed, "model_index": i, "variant": "comment blocks that are not documentation", "files_base": c01._files(a), "files_variant": c01._files(b)}
+            if a.gen_ok != b.gen_ok:
+                report.violation("respelled-model-rejected", dict(replay, error=a.err or b.err), "comments changed accept/reject")
+            elif a.gen_ok:
+                for tgt in ("out_cpp", "out_py", "out_matlab", "out_json"):
+                    d = _diff_trees(os.path.join(a.root, tgt), os.path.join(b.root, tgt))
+                    report.count("compared." + tgt)
+                    if d:
+                        report.violation(f"non-documentation-comments-change-generated-code:{tgt}", dict(replay, first_difference=d),
+                                         "comment blocks separated from a node by an empty line (not documentation) changed the generated code")
+                        break
         # (2) definition order / file split
         p2 = copy.deepcopy(pkg)
         rr = random.Random(seed * 31 + i)
